@@ -40,7 +40,9 @@ chk("C05",
     "{1, 0.1, 0.01}; run level: pipeflow returns iff every stage converged, and after any history a failed run leaves the net "
     "not converged with no result numbers. The full clause 'the accepted step was undamped' is proved FALSE of the code by two "
     "kernel-checked witnesses that are replayed on the real newton_raphson (known finding). The model is tied to the code by "
-    "driving the real newton_raphson with 13,850+ scripted iteration functions and by real success/failure histories.",
+    "driving the real newton_raphson with 13,850+ scripted iteration functions and by real success/failure histories; which option "
+    "bounds which solver variable in each stage is generated from hydraulics/heat_transfer/bidirectional and proved to pair every "
+    "variable with the tolerance of its own dimension.",
     "Stage outcomes (what the linear solve produces) are inputs of the model; finiteness of supplied elements is checked by the "
     "search only.",
     "Lean 4 proof over a state-machine model of the Newton driver; scripted differential correspondence; history search", "8/C05")
@@ -64,17 +66,18 @@ chk("C03",
     "fixing elements yields their arithmetic mean; a vanishing residual of the generated liquid and gas kernels with the "
     "compressor lift rule gives p_to,abs = ratio * p_from,abs (+ hydrostatic term), zero lift for reverse flow. Ties: exact "
     "assembly correspondence, set_fixed_node_entries correspondence. Oracle: every set-point clause on res_* tables.",
-    "Pump curve and circulation-pump lift are checked by the oracle only; compressor lift rule is hand-modelled.",
+    "Pump curve and circulation-pump lift are checked by the oracle only; the compressor lift, flow-controller, pressure-controller "
+    "and heat-consumer rows are translated from the component classes (bitwise self-check) and proved to be what the invariants assume.",
     "Lean 4 proof over assembly model + generated kernels; correspondence; set-point oracle search", "8/C03")
 chk("C06",
     "Lean theorems over the grouped-sum / lookup model: the bucket (numba) implementation equals the specification 'sum of all "
     "values carrying the key' for every input; per-key sums and reported keys are invariant under any row permutation; under an "
     "injective relabelling the sum for sigma(k) is the former sum for k; index lookup commutes with injective relabelling and "
-    "returns the row carrying the label. The numpy variant (sort + cumsum + run-end differences) is part of the executable model "
-    "and is tied, together with the other two, to _sum_by_group_np/_numba by exact integer correspondence (labels to 5e6, around "
-    "the 1e5 / 2 len / 10 len switch). Oracle: every generated net vs. its relabelled, row-permuted, re-ordered variant.",
-    "cumsum-difference = run sum of the numpy variant is validated by correspondence, not yet proved; the pit builders' "
-    "equivariance is covered by the variant oracle only.",
+    "returns the row carrying the label. The numpy variant (stable sort + running sum + run-end differences) is proved equal to the "
+    "specification for every input as well (hence equal to the numba variant). All three are tied to _sum_by_group_np/_numba by exact "
+    "integer correspondence (labels to 5e6, around the 1e5 / 2 len / 10 len switch). Oracle: every generated net vs. its relabelled, "
+    "row-permuted, re-ordered variant (several pipe valves, per-junction temperatures).",
+    "the pit builders' equivariance is covered by the variant oracle only.",
     "Lean 4 proof over grouped-sum/lookup model; exact correspondence; metamorphic relabel/permute search", "8/C06")
 chk("C08",
     "Lean theorems: on any meshed topology two steady states of the same network with strictly monotone branch laws have identical "
@@ -112,8 +115,9 @@ chk("C11",
     "mdot c_p dT equals what all other branches take out (incidence algebra, any loop topology). Oracle: duty identities, "
     "set-points (where the property demands them), deltat report and loop closure within the c_p discretisation bound, all five "
     "consumer modes, sequential and bidirectional.",
-    "Heat-consumer mode logic (adaption_* methods) is exercised by the oracle, not modelled; known finding: QE_TR/QE_DT consumers "
-    "in sequential mode report a duty inconsistent with their own temperatures.",
+    "The HeatConsumer adaption_* class methods are translated per row (duty per mode, mass flow of QE_DT, identity rows) and tied "
+    "bitwise to the real methods; mode classification (create_component_array) is exercised by the oracle only; known finding: "
+    "QE_TR/QE_DT consumers in sequential mode report a duty inconsistent with their own temperatures.",
     "Lean 4 proof over translated thermal kernel + incidence algebra; duty / closure oracle search", "8/C11")
 chk("C12",
     "Lean theorems: (1) no_stale_read - over the access sequence of pipeflow(net, ...) that a static scanner regenerates from the "
